@@ -35,4 +35,5 @@ if [ -f "$SEED/demo.py" ]; then
   pybuild && { python3 "$SEED/demo.py" /tmp/wt/verify_pymod >/tmp/wt/verify_demo_mut.log 2>&1; echo "demo.py with change: exit $? ($(tail -1 /tmp/wt/verify_demo_mut.log | cut -c1-80))"; } || echo "python extension does not build with change"
 fi
 } | tee "$SEED/verify.txt"
-if cmp -s "$SEED/patch.diff" "$SEED/patch.rebased.diff"; then rm -f "$SEED/patch.rebased.diff"; else mv "$SEED/patch.rebased.diff" "$SEED/patch.diff"; echo "patch.diff re-based onto current /repo HEAD" | tee -a "$SEED/verify.txt"; fi
+if [ ! -s "$SEED/patch.rebased.diff" ]; then rm -f "$SEED/patch.rebased.diff"; # nothing was re-based (the patch did not apply, or nothing to do)
+elif cmp -s "$SEED/patch.diff" "$SEED/patch.rebased.diff"; then rm -f "$SEED/patch.rebased.diff"; else mv "$SEED/patch.rebased.diff" "$SEED/patch.diff"; echo "patch.diff re-based onto current /repo HEAD" | tee -a "$SEED/verify.txt"; fi
